@@ -70,6 +70,7 @@ def run(repo, rep):
     from . import c12
 
     rep.run_borrowed(c12, {"C12-b": "C05-a"}, repo)
+    rule_round5(repo, rep)
     from .shared import duplicate_branch_lint
 
     duplicate_branch_lint(repo, rep, "C05-c", ['tensor_allocation', 'greedy_allocation', 'hillclimb_allocation', 'live_range'])
@@ -341,3 +342,38 @@ def _canon_ord(form, ords):
     if keys and form[keys[0]] < 0:
         return {{LT: GT, GT: LT, EQ: EQ}[o] for o in ords}
     return set(ords)
+
+
+def rule_round5(repo, rep):
+    """(e) the search terminates within its iteration bound: the bound given by the caller is used as given (0 is a bound, None
+    means the default); the test that distinguishes 'not given' is an identity test, not a truth test."""
+    rep.clause("C05-e", "numeric options of the allocators with a 'not given' default (None) are tested with `is None`: 0 is a value (--hillclimb-max-iterations 0 means no search iterations, not the default 99999)")
+    n = 0
+    for mname in ("hillclimb_allocation", "tensor_allocation", "greedy_allocation"):
+        m = repo.mod(mname)
+        for q, fn in m.functions.items():
+            numeric = {a.arg for a in fn.args.args + fn.args.kwonlyargs if a.annotation is not None and "int" in str(norm(a.annotation))} | \
+                {a.arg for a in fn.args.args if a.arg in ("max_iterations", "memory_limit", "alloc_granularity", "alignment")}
+            if not numeric:
+                continue
+            for x in ast.walk(fn):
+                tested = []
+                if isinstance(x, ast.BoolOp):
+                    tested = [v for v in x.values[:-1] if isinstance(v, ast.Name)]
+                    if isinstance(x.op, ast.And) or True:
+                        pass
+                elif isinstance(x, (ast.If, ast.IfExp, ast.While)):
+                    t = x.test
+                    tested = [t] if isinstance(t, ast.Name) else ([t.operand] if isinstance(t, ast.UnaryOp) and isinstance(t.op, ast.Not) and isinstance(t.operand, ast.Name) else [])
+                for v in tested:
+                    if v.id in numeric:
+                        n += 1
+                        rep.bad("C05-e", f"ethosu/vela/{mname}.py:{q}", f"`{v.id}` (a number, None when not given) is compared with None by identity",
+                                f"`{str(norm(x))[:70]}` truth-tests `{v.id}`: the legal value 0 is treated as 'not given' (max_iterations 0 runs 99999 search iterations)")
+            for c in ast.walk(fn):
+                if isinstance(c, ast.Compare) and isinstance(c.left, ast.Name) and c.left.id in numeric and len(c.ops) == 1 and isinstance(c.ops[0], (ast.Is, ast.IsNot)):
+                    n += 1
+                    rep.ok("C05-e", f"ethosu/vela/{mname}.py:{q}", f"`{str(norm(c))}`", "identity test against None")
+    if n < 1:
+        raise AnalysisError("allocator option defaults: no None tests found")
+    rep.floor("C05-e", 1)
